@@ -65,6 +65,8 @@ struct Forge<'a> {
     /// content type in the private message header (1 = application)
     header_content_type: u8,
     payload: &'a [u8],
+    /// bytes appended to PrivateMessageContent as padding
+    padding: &'a [u8],
 }
 
 fn build(f: &Forge) -> Option<MlsMessage> {
@@ -100,6 +102,7 @@ fn build(f: &Forge) -> Option<MlsMessage> {
     let mut plain = vec![];
     put_vbytes(&mut plain, f.payload);
     put_vbytes(&mut plain, &signature);
+    plain.extend_from_slice(f.padding);
     // PrivateContentAAD
     let mut caad = vec![];
     put_vbytes(&mut caad, &gid);
@@ -153,7 +156,7 @@ fn sweep(w: &World, ctx: &mut Ctx) {
     for &v in &members {
         let Some(&helper) = members.iter().find(|m| **m != v) else { continue };
         let vl = w.leaf_of(v);
-        let f = Forge { w, forger: helper, claimed_leaf: vl, ratchet_leaf: vl, generation: 0, signer: v, header_content_type: 1, payload: b"control payload" };
+        let f = Forge { w, forger: helper, claimed_leaf: vl, ratchet_leaf: vl, generation: 0, signer: v, header_content_type: 1, payload: b"control payload", padding: &[] };
         let Some(m) = build(&f) else {
             ctx.note("C03x: the control message could not be built");
             continue;
@@ -180,6 +183,36 @@ fn sweep(w: &World, ctx: &mut Ctx) {
     if validated {
         ctx.goal("private-forging-procedure-validated");
     }
+    // ---- padding (RFC 9420 6.3.1): zero padding of any length is fine, any non-zero byte in
+    //      it makes the message malformed -- even though signature and AEAD are right
+    if let (Some(&v), Some(&helper)) = (members.first(), members.get(1)) {
+        let vl = w.leaf_of(v);
+        let pads: [(&str, Vec<u8>, bool); 5] = [("17 zero bytes", vec![0; 17], true), ("one non-zero byte", vec![1], false), ("zeros then 0x80", [vec![0; 30], vec![0x80]].concat(), false), ("0xff then zeros", [vec![0xff], vec![0; 30]].concat(), false), ("300 zero bytes", vec![0; 300], true)];
+        for (what, pad, ok) in pads {
+            let f = Forge { w, forger: helper, claimed_leaf: vl, ratchet_leaf: vl, generation: 0, signer: v, header_content_type: 1, payload: b"padded", padding: &pad };
+            let Some(m) = build(&f) else { continue };
+            for &r in &members {
+                if r == v {
+                    continue;
+                }
+                ctx.eval();
+                ctx.cur_trail = vec![format!("authentic message with padding = {what}, delivered to {}", w.parties[r].name)];
+                match (deliver(w, r, &m), ok) {
+                    (Ok(Ok(_)), true) => ctx.outcome("padding:zero-accepted"),
+                    (Ok(Err(e)), false) => {
+                        ctx.outcome(format!("padding:non-zero-refused:{e}"));
+                        ctx.goal("non-zero-padding");
+                    }
+                    (Ok(Ok(_)), false) => ctx.violation("non-zero-padding-accepted", format!("{} accepted a private message whose padding is {what}", w.parties[r].name)),
+                    (Ok(Err(e)), true) => ctx.violation(format!("zero-padding-refused|{e}"), format!("{} refused a private message whose padding is {what}", w.parties[r].name)),
+                    (Err(_), _) => {
+                        let (loc, msg, _) = take_panic();
+                        ctx.violation(format!("panic|private-padding|{loc}"), msg);
+                    }
+                }
+            }
+        }
+    }
     // ---- forgeries
     for &forger in &members {
         let fl = w.leaf_of(forger);
@@ -198,7 +231,7 @@ fn sweep(w: &World, ctx: &mut Ctx) {
         for (what, claimed, ratchet) in targets {
             for generation in [0u32, 1, 5] {
                 for header_ct in [1u8, 2] {
-                    let f = Forge { w, forger, claimed_leaf: claimed, ratchet_leaf: ratchet, generation, signer: forger, header_content_type: header_ct, payload: b"forged payload" };
+                    let f = Forge { w, forger, claimed_leaf: claimed, ratchet_leaf: ratchet, generation, signer: forger, header_content_type: header_ct, payload: b"forged payload", padding: &[] };
                     let Some(m) = build(&f) else {
                         ctx.outcome(format!("forgery-not-constructible:{what}"));
                         continue;
